@@ -1,14 +1,21 @@
 #!/bin/sh
-# tools/seedtest.sh <property> <patch.diff> [tier]  -- apply a seeded change to /repo, run the check, undo it.
+# tools/seedtest.sh <property> <patch.diff> [tier]
+# Run a check against a seeded change WITHOUT touching /repo: the change is applied to a scratch worktree
+# (/tmp/mut-<property>) that the check imports btclib from; evidence and replays go to a scratch directory.
+# (Equivalent to: git -C /repo apply <patch>; ./check <P>; git -C /repo checkout -- .)
 set -u
 P="$1"; PATCH="$2"; TIER="${3:-quick}"
-cd /repo || exit 2
-if ! git diff --quiet; then echo "seedtest: /repo has uncommitted changes, refusing"; exit 2; fi
-git apply "$PATCH" || { echo "seedtest: patch does not apply"; exit 2; }
+WT="/tmp/mut-$P"
+HEAD=$(git -C /repo rev-parse HEAD)
+if [ ! -d "$WT" ]; then git -C /repo worktree add -q --detach "$WT" "$HEAD" || exit 2; fi
+git -C "$WT" checkout -q --detach "$HEAD" && git -C "$WT" checkout -q -- . || exit 2
+git -C "$WT" apply "$PATCH" || { echo "seedtest: patch does not apply"; exit 2; }
 cd /verif
-./check "$P" --tier "$TIER" > "/tmp/seed-$P.log" 2>&1
+mkdir -p "/tmp/seed-out-$P"
+PYTHONPATH="$WT" BTCLIB_REPO="$WT" MBV_EVIDENCE_DIR="/tmp/seed-out-$P" MBV_REPLAYS_DIR="/tmp/seed-out-$P/replays" \
+  ./check "$P" --tier "$TIER" > "/tmp/seed-$P-$(basename $(dirname $PATCH)).log" 2>&1
 RC=$?
-git -C /repo checkout -- .
+git -C "$WT" checkout -q -- .
 echo "seedtest $P $(basename $(dirname $PATCH)) rc=$RC"
-grep -E "^VIOLATION|MACHINERY|KNOWN" "/tmp/seed-$P.log" | head -5 | cut -c1-300
+grep -E "^VIOLATION|MACHINERY|KNOWN" "/tmp/seed-$P-$(basename $(dirname $PATCH)).log" | head -4 | cut -c1-300
 exit $RC
